@@ -1056,6 +1056,7 @@ unsigned int CppCheck::checkInternal(const FileWithDetails& file, const std::str
                     errors.pop_front();
                 }
                 mLogger->setAnalyzerInfo(nullptr);
+                mLogger->clear(); // the cached findings must not filter the findings of the next file
                 return mLogger->exitcode();  // known results => no need to reanalyze file
             }
         }
